@@ -133,8 +133,8 @@ impl Property for C20 {
     }
     fn budget(&self, tier: Tier) -> (u32, u32) {
         match tier {
-            Tier::Quick => (60, 8),
-            Tier::Thorough => (900, 16),
+            Tier::Quick => (200, 8),
+            Tier::Thorough => (4000, 16),
         }
     }
     fn tape_len(&self) -> usize {
